@@ -656,12 +656,10 @@ class MQTTProtocol(MQTTBaseProtocol):
     # Helper methods (publisher/subscriber)
     # -------------------------------------
 
-    def doConnectionLost(self, reason):
+    def doCancelAlarms(self):
         '''
-        Additional connection lost clean up.
+        Cancel the retransmission alarms of all pending requests.
         '''
-       
-        # Cancel Alarms first
         for _, request in self.factory.windowSubscribe[self.addr].items():
             if request.alarm is not None:
                 request.alarm.cancel()
@@ -678,6 +676,15 @@ class MQTTProtocol(MQTTBaseProtocol):
             if request.alarm is not None:
                 request.alarm.cancel()
                 request.alarm = None
+
+
+    def doConnectionLost(self, reason):
+        '''
+        Additional connection lost clean up.
+        '''
+       
+        # Cancel Alarms first
+        self.doCancelAlarms()
         # Pending (un)subscriptions are not part of the session state
         # and are never resent: fail them whatever the session mode
         for k in list(self.factory.windowSubscribe[self.addr]):
